@@ -38,6 +38,26 @@ Theorem C03_short_rejected : forall h f o, (length f < 6)%nat -> rx_filter h f o
 Proof. exact short_frame_rejected. Qed.
 Print Assumptions C03_short_rejected.
 
+(* completeness: the frame a conforming responder sends for request header h
+   (IpmbHeaderRsp.encode of the mirrored header with netfn|1, any body, payload
+   checksum) is accepted under EVERY option setting, and carries exactly the body *)
+Theorem C03_conforming_reply_accepted : forall h body o,
+  hdr_in_range h -> bytes_ok body = true ->
+  exists f, rsp_frame h body = Ok f /\ length f = (7 + length body)%nat /\
+            bytes_ok f = true /\ rx_filter h f o = Ok true /\ payload f = body.
+Proof. exact conforming_reply_accepted. Qed.
+Print Assumptions C03_conforming_reply_accepted.
+
+(* ... and a well-formed reply to ANOTHER request (other sequence number, responder
+   LUN, command or network function) is rejected under the default options *)
+Theorem C03_other_request_rejected : forall h h' body f,
+  hdr_in_range h -> hdr_in_range h' -> bytes_ok body = true -> rsp_frame h' body = Ok f ->
+  (rq_seq h' <> rq_seq h \/ rs_lun h' <> rs_lun h \/ cmdid h' <> cmdid h \/
+   N.lor (netfn h') 1 <> N.lor (netfn h) 1) ->
+  rx_filter h f default_opts <> Ok true.
+Proof. exact other_seq_rejected. Qed.
+Print Assumptions C03_other_request_rejected.
+
 (* non-vacuity: a concrete accepted frame exists (Get Device Id reply) *)
 Example C03_accepts_somewhere :
   rx_filter (mkHdr 0x20 0 0x81 0 5 6 1) [0x81; 0x1c; 0x63; 0x20; 0x14; 0x01; 0x00; 0xcb] default_opts = Ok true
